@@ -21,6 +21,9 @@ Correspondence of lean/AmaranthVerif/Model/Memory.lean (+ Spec/MemoryRows.lean) 
               port's `data` and **all rows** (`ctx.get(mem.data[i])`) are observed. Every operation is then
               evaluated by the driver *from the state observed before it*: Model (`Mem.step`), Spec
               (`MemRows.step` on `absState`) and the pre-repair model (`Mem.stepOld`, finding F22).
+              After every walk the declared initial contents are looked at again: `list(mem.init)`, all rows and read
+              ports after `Simulator.reset()`, and (every second walk) the state a second Simulator on the same design
+              object starts from - all compared with the declared contents the driver derives from the configuration.
 4. graph      small configurations (depth <= 2, width <= 2, <= 2 ports): every state (all row contents x all
               read-register contents; every one is reachable through testbench row writes and captures) x
               every input valuation x every clock event, loaded into the real memory and stepped once.
@@ -361,15 +364,22 @@ class _Tb:
 
 
 def walk_worker(job):
-    """job = (cfg, ops) -> {"enw": [...], "obs": [(rows, rd), ...]} | {"error": kind}"""
-    cfg, ops = job
+    """job = (cfg, ops[, second]) -> {"enw": [...], "obs": [(rows, rd), ...]} | {"error": kind}
+    With the third element present, the declared initial contents are looked at again after the walk ("after"):
+    `list(mem.init)`, every row and read port after `sim.reset()`, and (if `second`) the state a second Simulator built on
+    the same design object starts from."""
+    cfg, ops, *more = job
     try:
         t = _Tb(cfg)
     except Exception as e:  # noqa: BLE001
         return {"error": "build:" + common.errkind(e), "msg": str(e)[:200]}
     out = {"enw": [len(wp.en) for wp in t.wps], "abits": [len(p.addr) for p in t.wps + t.rps], "obs": []}
+    again = [False]
 
     async def tb(ctx):
+        if again[0]:            # the run after Simulator.reset(): only look
+            out["after"]["reset"] = t.observe(ctx)
+            return
         out["obs"].append(t.observe(ctx))
         for op in ops:
             t.inputs(ctx, op)
@@ -388,6 +398,30 @@ def walk_worker(job):
         t.sim.run()
     except Exception as e:  # noqa: BLE001
         return {"error": "sim:" + common.errkind(e), "msg": str(e)[:200], **out}
+    if more:
+        out["after"] = after = {}
+        try:
+            # a row of a shape-castable memory that `init` never mentioned reads as None (= the row shape's default)
+            after["init"] = [None if x is None else _row_int(x) for x in list(t.mem.init)]
+        except Exception as e:  # noqa: BLE001
+            after["init_error"] = common.errkind(e) + ": " + str(e)[:200]
+        try:
+            again[0] = True
+            t.sim.reset()
+            t.sim.run()
+        except Exception as e:  # noqa: BLE001
+            after["reset_error"] = common.errkind(e) + ": " + str(e)[:200]
+        if more[0]:
+            from amaranth.sim import Simulator
+            try:
+                sim2 = Simulator(t.m)
+
+                async def tb2(ctx):
+                    after["second"] = t.observe(ctx)
+                sim2.add_testbench(tb2)
+                sim2.run()
+            except Exception as e:  # noqa: BLE001
+                after["second_error"] = common.errkind(e) + ": " + str(e)[:200]
     return out
 
 
@@ -804,6 +838,49 @@ class Judge:
         return False
 
 
+def judge_after(chk, cfg, ops, obs, after, declared, seen):
+    """"holding its declared initial contents": what a walk did to the rows must not reach the declaration. After the walk
+    `list(mem.init)`, every row and every read port after `Simulator.reset()`, and the state a second Simulator on the same
+    design object starts from are compared with the declared contents (`declared` = rows / read data the driver derives
+    from the abstract configuration, the same values the state before the first operation is compared with)."""
+    d_rows, d_rd = declared
+    w, sg = shape_width(cfg["shape"]), shape_signed(cfg["shape"])
+    dflt = shape_default(cfg["shape"])        # `mem.init[i]` is None for a row that holds the row shape's default
+    changed = list(obs[-1][0]) != list(d_rows)
+    chk.hist("init_preserved", "walks looked at again (mem.init, Simulator.reset())")
+    if changed:
+        chk.hist("init_preserved", "walks whose rows differ from the declared contents at the end")
+    found = []
+    if "init_error" in after:
+        found.append(("list(mem.init) after the walk", after["init_error"], d_rows))
+    elif [norm_row(dflt if v is None else v, w, sg) for v in after["init"]] != list(d_rows):
+        found.append(("list(mem.init) after the walk", after["init"], d_rows))
+    if "reset_error" in after or "reset" not in after:
+        found.append(("Simulator.reset() and run", after.get("reset_error", "the testbench was not restarted"), [d_rows, d_rd]))
+    elif (list(after["reset"][0]), list(after["reset"][1])) != (list(d_rows), list(d_rd)):
+        found.append(("rows / read data after Simulator.reset()", after["reset"], [d_rows, d_rd]))
+    if "second_error" in after:
+        found.append(("a second Simulator on the same design", after["second_error"], [d_rows, d_rd]))
+    elif "second" in after:
+        chk.hist("init_preserved", "walks followed by a second Simulator on the same design")
+        if changed:
+            chk.hist("init_preserved", "second Simulator after rows were changed")
+        if (list(after["second"][0]), list(after["second"][1])) != (list(d_rows), list(d_rd)):
+            found.append(("rows / read data a second Simulator on the same design starts from", after["second"], [d_rows, d_rd]))
+    chk.count(len([k for k in ("init", "reset", "second") if k in after]))
+    if found:
+        seen["violations"] += 1
+        if seen["violations"] > 5:
+            chk.hist("init_preserved", "further violations (not listed)")
+            return
+        what, impl, want = found[0]
+        chk.violation(f"memory {describe(cfg)}: after a walk of {len(ops)} operations (rows at its end {obs[-1][0]}): {what}: "
+                      f"{impl}, declared initial contents {want}",
+                      {"kind": "init-preserved", "cfg": cfg, "ops": ops if len(ops) <= 60 else "see seed",
+                       "rows_at_end_of_walk": obs[-1][0], "declared": [d_rows, d_rd],
+                       "differs": [{"what": a, "impl": b, "declared": c} for a, b, c in found]})
+
+
 def describe(cfg):
     return (f"shape={cfg['shape']} depth={cfg['depth']} doms={[(d['edge'], d['rst']) for d in cfg['doms']]} "
             f"wr={[(w['dom'], w['gran']) for w in cfg['wrs']]} rd={[(r['dom'], r['transp']) for r in cfg['rds']]}"
@@ -892,6 +969,8 @@ def run(chk):
         "a clock event (each domain's clock toggles with p=.75, resets pulse) or a testbench row / row-slice write (1.5 % of the "
         "operations name a row that does not exist - index = depth, beyond it, or negative - and must raise IndexError). distinct = distinct "
         "(configuration, operation list); non-trivial = at least one enabled in-range write and one enabled sync capture or comb read. "
+        "After each walk: list(mem.init), rows / read data after Simulator.reset(), and (every second walk) the initial state of a "
+        "second Simulator on the same design object, against the declared initial contents. "
         "graph: all states x all input valuations x all clock events of the listed small configurations.")
 
     # -- 1. Python integer primitives --------------------------------------------------------------
@@ -1003,7 +1082,10 @@ def run(chk):
         if any(p is None for p in mp):
             raise common.Infra(f"generator produced a granularity the model rejects: {describe(cfg)}")
         jobs.append((cfg, gen_ops(rng, cfg, rng.choice([n_ops // 3, n_ops, n_ops]))))
-    results = list(pool.map(walk_worker, jobs, chunksize=max(1, len(jobs) // (workers * 8))))
+    # after every walk the declared initial contents are looked at again (mem.init, Simulator.reset(), and - for every
+    # second walk - a second Simulator on the same design object)
+    results = list(pool.map(walk_worker, [(cfg, ops, k % 2 == 0) for k, (cfg, ops) in enumerate(jobs)],
+                            chunksize=max(1, len(jobs) // (workers * 8))))
     phase("walks: amaranth side")
     reqs, idx = [], []
     for k, ((cfg, ops), mp, res) in enumerate(zip(jobs, ports, results)):
@@ -1027,6 +1109,7 @@ def run(chk):
         idx.append(k)
     resp = ask_par(chk, reqs)
     phase("walks: driver")
+    after_seen = {"violations": 0}
     for k, r in zip(idx, resp):
         cfg, ops = jobs[k]
         res = results[k]
@@ -1079,6 +1162,8 @@ def run(chk):
         if len(obs) - 1 < len(ops):
             chk.violation(f"memory {describe(cfg)}: simulation stopped after {len(obs) - 1} operations: {res.get('error')} {res.get('msg')}",
                           {"cfg": cfg, "ops": ops[:len(obs)], "error": res.get("error")})
+        elif "after" in res:
+            judge_after(chk, cfg, ops, obs, res["after"], (f(irows), f(ird)), after_seen)
         chk.distinct((repr(cfg), repr(ops)), nontrivial=n_wr > 0 and n_rd > 0)
         chk.hist("depths", cfg["depth"])
         chk.hist("shapes", cfg["shape"][0] + str(shape_width(cfg["shape"])))
@@ -1288,6 +1373,29 @@ def replay(chk, path):
     rep = json.load(open(path))["replay"]
     cfg = rep["cfg"]
     cfg["shape"] = _tuplify(cfg["shape"])
+    if rep.get("kind") == "init-preserved":
+        # the declared contents after a walk: run the recorded walk again and look at mem.init / reset / second Simulator
+        if not isinstance(rep["ops"], list):
+            print("the walk is too long to be recorded: re-run the check with the same seed")
+            return common.EXIT_INFRA if hasattr(common, "EXIT_INFRA") else common.EXIT_VIOLATION
+        for o in rep["ops"]:
+            o["wr"] = [tuple(x) for x in o["wr"]]
+            o["rd"] = [tuple(x) for x in o["rd"]]
+        res = walk_worker((cfg, rep["ops"], True))
+        after = res.get("after", {})
+        d_rows, d_rd = rep["declared"]
+        w, sg = shape_width(cfg["shape"]), shape_signed(cfg["shape"])
+        print("memory     :", describe(cfg))
+        print("declared   :", [d_rows, d_rd])
+        print("rows at the end of the walk :", res["obs"][-1][0] if res.get("obs") else res.get("error"))
+        print("list(mem.init) afterwards   :", after.get("init", after.get("init_error")))
+        print("after Simulator.reset()     :", after.get("reset", after.get("reset_error")))
+        print("second Simulator starts from:", after.get("second", after.get("second_error")))
+        dflt = shape_default(cfg["shape"])
+        same = ("init" in after and [norm_row(dflt if v is None else v, w, sg) for v in after["init"]] == d_rows and
+                all(k in after and [list(after[k][0]), list(after[k][1])] == [d_rows, d_rd] for k in ("reset", "second")))
+        print("verdict    :", "agrees" if same else "the declared initial contents were not kept")
+        return common.EXIT_OK if same else common.EXIT_VIOLATION
     if "op" not in rep:
         # a report about the initial contents: build the memory again and show its rows next to the declared ones
         res = walk_worker((cfg, []))
